@@ -57,6 +57,10 @@ pub enum Item {
     Batch(BatchSpec),
     /// thread-local registration (position among the items is irrelevant for shred, kept for C19)
     Tl(TlSpec),
+    /// a registration attempt that is ill-formed (0: unknown dependency, 1: reuses the name of an
+    /// earlier system), panics, is caught by the caller - who carries on with the same builder.
+    /// It registers nothing.
+    Failed(u8),
 }
 
 #[derive(Clone, Debug, Default)]
@@ -116,7 +120,7 @@ impl Plan {
                 Item::Sys(s) => Some(s.uid),
                 Item::Batch(b) => Some(b.uid),
                 Item::Tl(t) => Some(t.uid),
-                Item::Barrier => None,
+                Item::Barrier | Item::Failed(_) => None,
             };
             if let Some(u) = u {
                 m = Some(m.map_or(u, |x: u32| x.max(u)));
@@ -150,7 +154,7 @@ impl Plan {
     pub fn n_systems_total(&self) -> usize {
         let mut n = 0;
         self.walk(&mut |it, _| {
-            if !matches!(it, Item::Barrier) {
+            if !matches!(it, Item::Barrier | Item::Failed(_)) {
                 n += 1
             }
         });
@@ -188,6 +192,7 @@ impl Plan {
         for it in &self.items {
             match it {
                 Item::Barrier => barriers += 1,
+                Item::Failed(_) => {}
                 Item::Sys(s) => v.push(Unit {
                     uid: s.uid,
                     reg: v.len(),
@@ -238,6 +243,7 @@ impl Plan {
         for it in &self.items {
             match it {
                 Item::Barrier => h = mix(h, 1),
+                Item::Failed(k) => h = mix(h, 50 + *k as u64),
                 Item::Tl(t) => {
                     h = mix(h, 2);
                     h = mix(h, t.uid as u64);
@@ -280,6 +286,7 @@ impl Plan {
         for it in &self.items {
             a.push(match it {
                 Item::Barrier => J::Str("BARRIER".into()),
+                Item::Failed(k) => J::Str(if *k == 0 { "FAILED-ADD(unknown dependency, caught)".into() } else { "FAILED-ADD(reused name, caught)".into() }),
                 Item::Tl(t) => J::obj()
                     .set("tl", t.uid)
                     .set("r", slots_json(&t.reads))
